@@ -52,10 +52,10 @@ def main():
             for i in range(N):
                 for j in range(N):
                     rec = sum(Z[k][i] * wo[k] * Z[k][j] for k in range(N))
-                    if abs(rec - M[i][j]) > 1e-10 * (1 + max(abs(x) for x in w)):
+                    if not (abs(rec - M[i][j]) <= 1e-10 * (1 + max(abs(x) for x in w))):
                         bad += 1
                     uni = sum(Z[i][k] * Z[j][k] for k in range(N))
-                    if abs(uni - (1 if i == j else 0)) > 1e-10:
+                    if not (abs(uni - (1 if i == j else 0)) <= 1e-10):
                         bad += 1
             if any(abs(wo[i]) > abs(wo[i + 1]) + 1e-12 for i in range(N - 1)):
                 bad += 1
@@ -68,10 +68,10 @@ def main():
             for i in range(N):
                 for j in range(N):
                     rec = sum(U[k][i] * so[k] * U[k][j] for k in range(N))
-                    if abs(rec - M[i][j]) > 1e-10 * (1 + max(abs(x) for x in w)):
+                    if not (abs(rec - M[i][j]) <= 1e-10 * (1 + max(abs(x) for x in w))):
                         bad += 1
                     uni = sum(U[i][k] * U[j][k].conjugate() for k in range(N))
-                    if abs(uni - (1 if i == j else 0)) > 1e-10:
+                    if not (abs(uni - (1 if i == j else 0)) <= 1e-10):
                         bad += 1
             if any(s < 0 for s in so) or any(so[i] > so[i + 1] + 1e-12 for i in range(N - 1)):
                 bad += 1
@@ -91,7 +91,7 @@ def main():
             sc = 1 + max(abs(x) for r in M for x in r)
             for i in range(N):
                 for j in range(N):
-                    if abs(sum(U[k][i] * so[k] * V[k][j] for k in range(N)) - M[i][j]) > 1e-10 * sc:
+                    if not (abs(sum(U[k][i] * so[k] * V[k][j] for k in range(N)) - M[i][j]) <= 1e-10 * sc):
                         bad += 1
             if any(s < 0 for s in so) or any(so[i] > so[i + 1] for i in range(N - 1)):
                 bad += 1
